@@ -112,14 +112,23 @@ def _build_set(spec):
 
     caps = CaptionList()
     t = 1000000
+    step = 4000000
+    if spec and spec[0] == "@0":
+        # the first caption starts at the very beginning of the programme, the next ones follow closely
+        spec = spec[1:]
+        t, step = 0, 1600000
+    if spec and spec[0] == "@tight":
+        # captions crowded into the first second (less time between them than their transmission takes)
+        spec = spec[1:]
+        t, step = 200000, 400000
     for lines in spec:
         nodes = []
         for i, ln in enumerate(lines):
             if i:
                 nodes.append(CaptionNode.create_break())
             nodes.append(CaptionNode.create_text(ln))
-        caps.append(Caption(t, t + 1500000, nodes))
-        t += 4000000
+        caps.append(Caption(t, t + (1500000 if step > 1000000 else 300000), nodes))
+        t += step
     return CaptionSet({"en-US": caps})
 
 
@@ -168,6 +177,10 @@ def eval_writer_case(spec, wname, pre=None):
             if n == 0:
                 out.append((f"C20/own-output/{wname}-reads-empty" + (f"/captions-{pre}-before" if pre else ""), {"doc": doc[:300]}))
         except Exception as e:  # noqa
+            if wname == "SCCWriter" and spec and spec[0] == "@tight" and type(e).__name__ == "CaptionReadTimingError":
+                # cues crowded closer than their transmission time cannot all be shown: a caption displayed for less
+                # than 0.05 s is rejected with the documented timing error (C06) - not a failure to read SCC as SCC
+                return out, gname + "/documented-timing-rejection"
             out.append((f"C20/own-output/{wname}-reader-raises:{type(e).__name__}" + (f"/captions-{pre}-before" if pre else ""), {"doc": doc[:300], "err": str(e)[:200]}))
     return out, gname
 
@@ -176,6 +189,11 @@ def writer_specs(tier):
     specs = ["scc-reader-set"]
     for t in TEXT_TOKENS:
         specs.append([[t]])
+    for t in TEXT_TOKENS[:6]:
+        specs.append(["@0", [t]])
+        specs.append(["@0", [t], ["two rows", t]])
+        specs.append(["@0", ["Hi!"], [t, "second row"], ["third"]])
+        specs.append(["@tight", ["Hi!"], [t, "second row of the caption"], ["third"]])
     pairs = TEXT_TOKENS if tier == "thorough" else TEXT_TOKENS[:9]
     for a in pairs:
         for b in pairs:
